@@ -654,6 +654,10 @@ def cases_lens(ctx, empty=False):
                 for layout in ("TN", "NT", "ATB"):
                     for neg in (False, True):
                         yield dict(kind="lens", alpha=list(alpha), T=T, eos=eos, layout=layout, neg_dim=neg)
+    if not empty:
+        # long columns: more eos tokens after the first one than a narrow integer counter can hold (2^8, 2^15, 2^16)
+        for T, lead in ((255, 0), (256, 0), (257, 1), (300, 3), (600, 2), (33000, 1), (70000, 2)) if not ctx.quick else ((256, 0), (300, 3), (33000, 1)):
+            yield dict(kind="lens", cols=[[1] * lead + [0] * (T - lead), [2] * T, [1] * (T - 1) + [0]], T=T, eos=0, layout="TN")
     if empty:
         for N in range(0, 4):  # T = 0 with explicit batch sizes (the grid above has exactly one column of length 0)
             for layout in ("TN", "NT", "ATB"):
